@@ -113,6 +113,7 @@ PROPS = {
     },
     "C05": {
         "suites": ["kdf", "classify"],
+        "fail_kinds": ["check-panic", "check-timeout", "key-panic", "key-timeout", "newhash-failed"],
         "level": "proof",
         "technique": "Lean 4 proof (totality of every model function by kernel-checked recursion; explicit panic values proved unreachable) + outcome-class correspondence with recover and watchdog on structured mutations and short junk strings",
         "claim": "Kernel-checked: the parser model always returns (error or tree), never stores a nil value, groups are non-empty; the KDF skeletons return a key for EVERY password length and hash function; every base64 alphabet index is < 64; the lexer's terminal token is its last. "
@@ -165,7 +166,7 @@ PROPS = {
         "technique": "Lean 4: syntactic-dataflow discipline decided by `decide` on the flow IR of every Check regenerated from the current source (secret = Key result, stored digest, encoder outputs; only sinks: encoders, len, whole-buffer subtle.ConstantTimeCompare)",
         "claim": "Kernel-checked on the IR regenerated from the current source, for all ten schemes: the value returned by Key and the stored digest reach only encoders, len() and subtle.ConstantTimeCompare (whole buffers); the mismatch sentinel is returned by exactly one statement, guarded solely by that call's result == 0; "
                  "no ==, bytes.Equal, indexing or other call touches secret-derived data; no statement falls outside the IR. A property over programs: the 'failing input' reported on violation is the offending statement.",
-        "note": "Trusted: gogen's statement translator (unclassifiable statements become `.other`, which fails the discipline); crypto/subtle and the encoders being constant-time at machine level. The semantic non-interference theorem for the discipline is being proved separately (Props/C19Sound.lean when present).",
+        "note": "Trusted: gogen's statement translator (unclassifiable statements become `.other`, which fails the discipline); crypto/subtle and the encoders being constant-time at machine level. The discipline's meaning is proved (Props/C19Sound.lean): secretSafe'_sound and mismatch_cost_independent_of_position / _of_key — in a cost semantics where only encoders, len and whole-buffer ConstantTimeCompare touch secrets, two runs that both end in the mismatch sentinel execute the same statements at the same cost wherever the digests differ; instantiated per scheme (<scheme>_mismatch_cost).",
         "rule": "flowcheck: the ten Check functions; the Lean side evaluates secretSafe on the regenerated IR and names the first offending statement; non-trivial/distinct = the ten programs",
         "trusted": COMMON_TRUST,
         "assumptions": [],
@@ -248,7 +249,7 @@ PROPS = {
         "technique": "Lean 4 proof about an interleaving model of the type-cache/registry protocol (results isolated and no plain write to a published object, for every schedule) tied by protocol facts measured through the verif hook + Go race-detector exploration",
         "claim": "Kernel-checked on the protocol model for ANY number of threads and ANY interleaving: every getTypeInfo call returns exactly its isolated result (reporting its own argument type) and no published object is ever written — given the two protocol facts (private copy returned; entries keyed by the dereferenced type) that are MEASURED on the real code on every run. "
                  "Go side: N ∈ {2,8,32} goroutines × GOMAXPROCS ∈ {1,2,4,16} run random mixes of Check/NewHash/Params/Key/RegisterHash/Marshal/Unmarshal over all schemes and over shared and first-use struct types under the race detector; every result incl. error text is compared with a sequentially computed table.",
-        "note": "Partial: this is the property where the truth lives most in the runtime. The model's access footprints are a hand abstraction tied only by the measured facts and the race detector; sync.Map, reflect and stdlib internals are trusted. Until Props/C08.lean's interleaving theorems are in place the obligations are the sequential protocol theorems of C18.",
+        "note": "Partial: this is the property where the truth lives most in the runtime. The model's access footprints are a hand abstraction tied only by the measured facts and the race detector; sync.Map, reflect and stdlib internals are trusted. Kernel-checked: conc_results_isolated / conc_reports_own_struct / conc_forms_agree / conc_finishes (every call returns its isolated result under ANY schedule), conc_race_free and conc_published_never_written (no conflicting unsynchronised accesses in the model's traces), alias_has_race / alias_results_not_isolated (the repaired defect reproduced in the model), reg_load_last_store / reg_check_deterministic (registry as an atomic map). The concurrent-registration phase of the conc suite also covers races the detector cannot see (lost updates).",
         "rule": "conc (race build): 6 (quick) / 60 (thorough) rounds, each N goroutines × 30 operations drawn from ~100 operations (all schemes' Check ok/bad/malformed, dispatch, NewHash+Check, Params, Key; Marshal in T/*T/**T, Unmarshal ok/error cases, invalid-tag type; registry store/load) "
                 "plus first-use operations on a fresh struct type compared with a sibling type; cache: protocol facts measured; non-trivial/distinct = distinct rounds",
         "trusted": COMMON_TRUST + ["Go memory model (DRF-SC), sync.Map, reflect, the race detector"],
